@@ -692,6 +692,9 @@ class Spectrum(Generic[_TData]):
     def _increase_capacity(self, amount: int) -> None:
         new_capacity = self._start_index + self._sample_count + amount
         if new_capacity > self.capacity:
+            # Don't grow a buffer that the following copy cannot write to.
+            if not self._data.flags.writeable:
+                raise ValueError("assignment destination is read-only")
             self.capacity = new_capacity
 
     def load_data(
@@ -740,6 +743,9 @@ class Spectrum(Generic[_TData]):
 
         if copy:
             if sample_count > len(self._data):
+                # Don't grow a buffer that the following copy cannot write to.
+                if not self._data.flags.writeable:
+                    raise ValueError("assignment destination is read-only")
                 self.capacity = sample_count
             self._data[0:sample_count] = array[start_index : start_index + sample_count]
             self._start_index = 0
